@@ -9,13 +9,15 @@ Open Scope Z_scope.
 Definition case := (list (list (Z * tdef)) * Z * Z * list (op * obs))%type.
 
 (* what the model shows for one step, in the shape of an observation *)
-Definition observe (w : world) (o : op) : obs :=
-  let '(w', r) := step w o in
+Definition observe0 (w : world) (o : op) : obs :=
+  let '(w', r) := step0 w o in
   mkO r (nth (Z.to_nat (target w o)) (w_insts w') (new_inst 0))
       (map (fun i => digest (enc_inst i)) (w_insts w'))
       (digest (enc_classes (w_classes w')))
       (w_next w')
       (match v_shape r with 9 => true | _ => false end).
+
+Definition observe (w : world) (o : op) : obs := observe0 (resolved w o) o.
 
 (* codes: 100*step + 1 returned value, 2 view of the target instance, 3 allocator position,
    4 exception flag; 20 (at step 0) declared class tables <> observed ones *)
